@@ -226,11 +226,10 @@ Section Agree.
     Forall2 field_ok_c (od_query od) (pq v) -> names_distinct str_eqb (od_query od) ->
     Forall2 field_ok_c (od_header od) (ph v) -> names_distinct hdr_eq (od_header od) ->
     path_fields_ok (od_path od) (pp v) ->
-    (bp = [] \/ od_path od <> []) ->
     client_request fmt_float fmt_time bp method od v = Some rq ->
     parse_request pf pt bp od rq = Ok v.
   Proof.
-    intros Hq Hqd Hh Hhd Hp Hbp Hc. unfold client_request in Hc.
+    intros Hq Hqd Hh Hhd Hp Hc. unfold client_request in Hc.
     destruct (client_pairs fmt_float fmt_time (od_query od) (pq v)) as [qs|] eqn:Eq; [|discriminate].
     destruct (client_pairs fmt_float fmt_time (od_header od) (ph v)) as [hs|] eqn:Eh; [|discriminate].
     destruct (client_segs fmt_float fmt_time (od_path od) (pp v)) as [segs|] eqn:Es; [|discriminate].
@@ -281,10 +280,9 @@ Section Agree.
     Forall2 field_ok_c (od_query od) (pq v) -> names_distinct str_eqb (od_query od) ->
     Forall2 field_ok_c (od_header od) (ph v) -> names_distinct hdr_eq (od_header od) ->
     path_fields_ok (od_path od) (pp v) ->
-    (bp = [] \/ od_path od <> []) ->
     exists rq, client_request fmt_float fmt_time bp method od v = Some rq /\ parse_request pf pt bp od rq = Ok v.
   Proof.
-    intros Hq Hqd Hh Hhd Hp Hbp.
+    intros Hq Hqd Hh Hhd Hp.
     destruct (client_pairs_defined _ _ Hq) as (qs & Eq). destruct (client_pairs_defined _ _ Hh) as (hs & Eh).
     destruct (client_segs_defined _ _ Hp) as (segs & Es).
     assert (Hc : exists rq, client_request fmt_float fmt_time bp method od v = Some rq).
